@@ -298,3 +298,202 @@ def u_fg_bg(ctx):
                     eng.oblige("rest-of-the-reply-drained-iff-queries-enabled", s, s.ghost["reads"] == z3.If(enabled, 1, 0), kind="post")
                 obs += eng.obligations
     return obs
+
+
+@unit("C12", "utils:get_terminal_name_version")
+def u_name_version(ctx):
+    """the undecorated body (the @cached wrapper is C15's): reports exactly the replied name (lower-cased) and version; falls back to
+    TERM_PROGRAM / TERM_PROGRAM_VERSION when there is no XTVERSION reply or queries are disabled; asks for XTVERSION + DA1, reads up to
+    the start of the DA1 reply, then drains the rest of it"""
+    from pyvc.engine import PY_CASE
+    obs = []
+    cs = ctx.ns("term_image._ctlseqs")
+    for resp_kind in ("none", "empty", "xtversion", "other"):
+        for env_name in (False, True):
+            eng = ctx.engine(f"C12/get_terminal_name_version[{resp_kind},TERM_PROGRAM={'set' if env_name else 'unset'}]", "C12")
+            eng.default_replay = "C12.name_version"
+            st = State()
+            q = z3.Bool("queries_enabled")
+            if resp_kind != "none":
+                st.pc.append(q)        # a response object exists only when the query was sent
+            g = st.new("module", {"_queries_enabled": q, "_tty_lock": Opaque("lock")})
+            eng.globals_obj = g
+            st.ghost.update(reads=0, queries=[])
+            NAME, VER, ENAME, EVER = z3.String("replied_name"), z3.String("replied_version"), z3.String("TERM_PROGRAM"), z3.String("TERM_PROGRAM_VERSION")
+            st.pc += [z3.Length(NAME) >= 1, z3.Length(VER) >= 1, z3.Length(ENAME) >= 1]
+
+            def query_terminal(e, s, a, k, resp_kind=resp_kind):
+                out = []
+                for en, s2 in e.split(s, s.H(g)["_queries_enabled"]):
+                    s2 = e.fork(s2)
+                    if not en:
+                        out.append((None, s2))
+                        continue
+                    s2.ghost["queries"] = s2.ghost["queries"] + [tuple(a) + tuple(k.items())]
+                    out.append((None if resp_kind == "none" else s2.new("response", {"kind": resp_kind}), s2))
+                return out
+
+            def read_tty(e, s, a, k):
+                s = e.fork(s)
+                s.ghost["reads"] += 1
+                e.oblige("drain:read_tty()-without-arguments(all-available-input,no-blocking)", s, not a and not k, kind="pre")
+                return [(Opaque("rest of DA1"), s)]
+            eng.genv.update(query_terminal=Fn(query_terminal), read_tty=Fn(read_tty))
+            eng.methods[("response", "__bool__")] = lambda e, s, recv, a, k: [(s.H(recv)["kind"] != "empty", s)]
+            eng.methods[("response", "decode")] = lambda e, s, recv, a, k: [(recv, s)]
+            match = Rec("match", {"_groups": (NAME, VER)})
+            eng.attrs[("match", "groups")] = lambda e, s, v: [(Fn(lambda e2, s2, a, k: [(v.f["_groups"], s2)]), s)]
+            d = dict(cs.d)
+            d["XTVERSION_re"] = st.new("re_xtversion")
+            eng.methods[("re_xtversion", "match")] = lambda e, s, recv, a, k: [((match if isinstance(a[0], Ref) and s.H(a[0]).get("kind") == "xtversion" else None), s)]
+            eng.genv["ctlseqs"] = Namespace("ctlseqs", d)
+            environ = st.new("environ", {})
+            eng.methods[("environ", "get")] = lambda e, s, recv, a, k: [({"TERM_PROGRAM": ENAME if env_name else None, "TERM_PROGRAM_VERSION": EVER if env_name else None}.get(a[0], None), s)]
+            eng.genv["os"] = Namespace("os", {"environ": environ})
+            outs = run_function(eng, _fn_body(ctx, UTILS, "get_terminal_name_version"), st)
+            for kind, val, s in outs:
+                if kind != "return":
+                    eng.oblige(f"no-exception:{getattr(val, 'cls', kind)}", s, False, kind="raise")
+                    continue
+                enabled = s.H(g)["_queries_enabled"]
+                if resp_kind == "xtversion":
+                    exp = (PY_CASE["lower"](NAME), VER)
+                elif env_name:
+                    exp = (PY_CASE["lower"](ENAME), EVER)
+                else:
+                    exp = (None, None)
+                ok = isinstance(val, tuple) and len(val) == 2 and all((x is None) == (y is None) for x, y in zip(val, exp)) and And(*[x == y for x, y in zip(val, exp) if y is not None])
+                eng.oblige("reports-exactly-the-replied-name(lower-cased)-and-version;environment-fallback-otherwise", s, ok, kind="post")
+                eng.oblige("rest-of-the-DA1-reply-drained-iff-queries-enabled", s, s.ghost["reads"] == z3.If(enabled, 1, 0), kind="post")
+                qs = s.ghost["queries"]
+                if qs:
+                    req, more = qs[0][0], qs[0][1]
+                    sent_ok = len(qs) == 1 and req == cs.d["XTVERSION_b"] + cs.d["DA1_b"] and len(qs[0]) == 2
+                    eng.oblige("asks-for-XTVERSION-then-DA1-in-one-request,default-timeout", s, sent_ok, kind="post")
+                    # the stop predicate: reading goes on exactly until what was read ends with CSI (the start of the DA1 reply)
+                    probe = s.new("probe", {})
+                    B = z3.Bool("read_so_far_ends_with_CSI")
+                    asked = []
+
+                    def endswith(e, s_, recv, a, k):
+                        asked.append(a[0])
+                        return [(B, s_)]
+                    eng.methods[("probe", "endswith")] = endswith
+                    for v2, s2 in eng.call(more, (probe,), {}, s.fork()):
+                        eng.oblige("reading-stops-exactly-at-the-start-of-the-DA1-reply(CSI)", s2,
+                                   And(asked == [cs.d["CSI_b"]], to_z3(v2) == z3.Not(B)) if asked == [cs.d["CSI_b"]] else False, kind="post")
+            obs += eng.obligations
+    return obs
+
+
+# ------------------------------------------------------------------------------------------------ the read loops on a reply stream
+# Stream model: the terminal's replies form one byte stream; `pos` bytes of it have been consumed, `avail` have arrived (monotone).
+# The caller's predicate is a function of what was read so far, i.e. of the number of bytes read from a given stream: MOREF(k).
+# KSTAR is the least k >= base with not MOREF(k) (axioms instantiated where used).  No faults here (C13 covers them).
+MOREF = z3.Function("more_after_k_bytes", z3.IntSort(), z3.BoolSort())
+
+
+def read_stream_unit(mode):
+    @unit("C12", f"utils:read_tty/stream[{mode}]")
+    def u(ctx, mode=mode):
+        from pyvc.engine import LoopSpec
+        from . import tty
+        eng = ctx.engine(f"C12/read_tty.stream[{mode}]", "C12")
+        eng.default_replay = "C12.read_loops"
+        st = State()
+        tty.install(eng, faults=())
+        tty.tty_init(st)
+        g = st.new("module", {"_tty_fd": z3.Int("tty_fd")})
+        eng.globals_obj = g
+        base, avail0, KSTAR = z3.Ints("consumed_before arrived_before first_stop")
+        st.pc += [base >= 0, avail0 >= base, KSTAR >= base, z3.Not(MOREF(KSTAR))]
+        st.ghost.update(pos=base, avail=avail0, reads=[])
+        timeout = None if mode == "drain" else z3.Real("timeout")
+        if mode != "drain":
+            st.pc.append(timeout != 0)
+
+        def more(e, s, a, k):
+            ba = a[0]
+            return [(MOREF(base + s.H(ba)["len"]), s)]
+
+        def select(e, s, a, k):
+            # bytes may arrive at any time (avail grows); with a zero timeout select reports exactly whether bytes are queued;
+            # with a positive / infinite one it may also have waited for them
+            s = e.fork(s)
+            prev = s.ghost["avail"]
+            s.ghost["avail"] = e.sym_int("arrived")
+            s.pc.append(s.ghost["avail"] >= prev)
+            s.pc.append(s.ghost["avail"] >= st_prev(s))
+            ready = s.ghost["avail"] > s.ghost["pos"]
+            return [((Rec("ready", {"r": 0}, valid=ready), (), ()), s)]
+
+        def st_prev(s):
+            return s.ghost.get("avail_floor", avail0)
+
+        def os_read(e, s, a, k):
+            n = to_z3(a[1])
+            s = e.fork(s)
+            pos, av = s.ghost["pos"], s.ghost["avail"]
+            e.oblige("read-only-after-select-said-ready(never-blocks-on-an-empty-queue)", s, av > pos, kind="pre")
+            got = Min(n, av - pos)
+            s.ghost["pos"] = pos + got
+            s.ghost["avail_floor"] = av
+            s.ghost["reads"] = s.ghost["reads"] + [got]
+            return [(Rec("bytes", {"len": got}), s)]
+        eng.genv.update(select=Fn(select), monotonic=Fn(lambda e, s, a, k: [(e.sym_real("t"), s)]), os=Namespace("os", {"read": Fn(os_read)}))
+
+        def new_ba(e, s, a, k):
+            s = e.fork(s)
+            return [(s.new("bytearray", {"len": z3.IntVal(0)}), s)]
+        eng.genv["bytearray"] = Fn(new_ba)
+        eng.genv["bytes"] = Fn(lambda e, s, a, k: [(Rec("bytes", {"len": s.H(a[0])["len"]}), s)])
+
+        def extend(e, s, recv, a, k):
+            s = e.fork(s)
+            s.H(recv)["len"] = s.H(recv)["len"] + a[0].f["len"]
+            return [(None, s)]
+        eng.methods[("bytearray", "extend")] = extend
+        eng.methods[("bytearray", "__bool__")] = lambda e, s, recv, a, k: [(s.H(recv)["len"] > 0, s)]
+        eng.methods[("bytearray", "__len__")] = lambda e, s, recv, a, k: [(s.H(recv)["len"], s)]
+
+        def inv(s):
+            n = s.H(s.lookup("input"))["len"]
+            pos = s.ghost["pos"]
+            parts = [pos == base + n, n >= 0, s.ghost["avail"] >= pos, s.ghost.get("avail_floor", avail0) <= s.ghost["avail"]]
+            if mode != "drain":
+                parts.append(pos <= KSTAR)
+            return z3.And(*[to_z3(p) for p in parts])
+
+        def havoc(e, s, tag):
+            s.H(s.lookup("input"))["len"] = z3.Int(f"len!{tag}")
+            s.ghost["pos"] = z3.Int(f"pos!{tag}")
+            s.ghost["avail"] = z3.Int(f"avail!{tag}")
+            s.ghost["avail_floor"] = z3.Int(f"avail_floor!{tag}")
+            if "duration" in s.env:
+                s.env["duration"] = z3.Real(f"duration!{tag}")
+        for lid in (1, 2):
+            eng.invariants[lid] = LoopSpec(inv, havoc)
+        st.env.update(more=Fn(more), timeout=timeout, min=0, echo=False)
+        outs = run_function(eng, ctx.fn(UTILS, "read_tty"), st)
+        for kind, val, s in outs:
+            if kind != "return":
+                eng.oblige(f"no-exception:{getattr(val, 'cls', kind)}", s, False, kind="raise")
+                continue
+            pos = s.ghost["pos"]
+            eng.oblige("returns-exactly-the-bytes-it-consumed,in-order", s, And(isinstance(val, Rec) and val.name == "bytes", val.f["len"] == pos - base) if isinstance(val, Rec) else False, kind="post")
+            if mode == "drain":
+                eng.oblige("drain:everything-that-had-arrived-is-consumed,without-waiting", s, pos == s.ghost["avail"], kind="post")
+            else:
+                # instance of the definition of KSTAR at pos: below it the predicate still asks for more
+                s2 = s.fork()
+                s2.pc.append(z3.Implies(z3.And(pos >= base, pos < KSTAR), MOREF(pos)))
+                eng.oblige("timed:never-reads-past-the-first-point-where-the-predicate-is-satisfied", s2, pos <= KSTAR, kind="post")
+                dur = s.lookup("duration")
+                eng.oblige("timed:stops-because-the-predicate-is-satisfied-or-the-time-is-up", s2,
+                           z3.Or(pos == KSTAR, z3.And(timeout >= 0, to_z3(dur) >= timeout)), kind="post")
+        return eng.obligations
+    return u
+
+
+for _m in ("drain", "timed"):
+    read_stream_unit(_m)
